@@ -38,6 +38,8 @@ def replay(rec):
         ocp.add_objective(ocp.at_tf(chain[0]) ** 2 + ocp.sum(chain[-1] ** 2))
         ocp.add_objective(ocp.integral(chain[1], grid='control'))
         ocp.add_objective(ocp.integral(chain[0] * chain[1]))
+        xx = ca.vertcat(chain[0], chain[1]); dx = ocp.next(xx) - xx
+        ocp.add_objective(ocp.sum(ca.dot(dx, dx)))
         ocp.solver('ipopt')
         def grid_fun(n):
             # the method asks for the refined grid as well: equal subdivision of every control interval
@@ -110,6 +112,35 @@ def replay(rec):
         return {'results': res, 'error': None}
     except Exception as e:
         return {'results': res + [('C17.c', 'error', '%s: %s' % (type(e).__name__, (str(e).splitlines() or [''])[-1][:200]))], 'error': traceback.format_exc()}
+
+
+def mixedchain():
+    """C10 under SplineMethod: a vector state whose components sit on integrator chains of different length, with a guess
+    that is linear in time and differs per component.  The coefficients start at the guess evaluated at their Greville
+    points, and B-splines reproduce linear functions from those values (linear precision, checked by TLC in ScenSpline's
+    SplineLaws): the starting trajectory of every component is its guess at every node."""
+    from rockit import GeometricGrid, UniformGrid
+    res = []
+    coef = [(1.0, 0.5), (-3.0, 1.25)]
+    for N in (2, 3):
+        for grid in (UniformGrid(), GeometricGrid(2)):
+            ocp = Ocp(t0=0.5, T=2.0)
+            p = ocp.state(2); v = ocp.state(); a = ocp.control(); w = ocp.control()
+            ocp.set_der(p, ca.vertcat(v, w)); ocp.set_der(v, a)
+            ocp.add_objective(ocp.sum(a ** 2 + w ** 2))
+            ocp.subject_to(ocp.at_t0(p) == ca.vertcat(0, 1))
+            ocp.set_initial(p, ca.vertcat(*[c1 * ocp.t + c0 for c1, c0 in coef]))
+            ocp.solver('ipopt'); ocp.method(SplineMethod(N=N, grid=grid))
+            quiet(lambda: ocp._transcribed)
+            opti = ocp._method.opti
+            ts, ps = quiet(ocp.sample, p, grid='control')
+            tv = np.array(opti.debug.value(ts, opti.initial())).reshape(-1)
+            pv = np.array(opti.debug.value(ps, opti.initial())).reshape(-1, len(tv)) if np.array(opti.debug.value(ps, opti.initial())).shape[0] == 2 else np.array(opti.debug.value(ps, opti.initial())).T.reshape(-1, len(tv))
+            for i_, (c1, c0) in enumerate(coef):
+                want = c1 * tv + c0
+                ok = np.allclose(pv[i_], want, atol=1e-9)
+                res.append(('C10.spline:start:p%d' % (i_ + 1), 'ok' if ok else 'mismatch', 'N=%d %s: starting trajectory %s, guess %s' % (N, type(grid).__name__, np.round(pv[i_], 6).tolist(), np.round(want, 6).tolist())))
+    return res
 
 
 def infcons(rec):
